@@ -42,6 +42,21 @@ def gen(rng, tier):
         for r in list(range(2, 37)) + [0, 1, 37, 41, 42, 62, 64, 100, 168, 169, 200, 250, 255, 256, 257, 65536]:
             if r > 36 or r < 2 or rng.randrange(3) == 0 or tier == "thorough":
                 reqs.append("C15 i.text %d %s %s" % (r, rng.choice("+-"), wu(v)))
+    # scripted generators (the word-tape requests of stream C18 run inside the C15 check too): a zero magnitude followed
+    # by the "try again" coin, once and repeatedly, at sizes around every digit count — the refill / retry path is where a
+    # buffer released by normalize() would be written again (C15-v1)
+    M32 = (1 << 32) - 1
+    for bits in [1, 31, 32, 33, 63, 64, 65, 127, 128, 129, 191, 192, 193, 255, 256, 257, 511, 512, 1024, 1025, 4097] + ([8192, 20000] if tier == "thorough" else []):
+        ln = (bits + 31) // 32
+        for retries in (1, 2, 5):
+            tape = []
+            for _ in range(retries):
+                tape += [0] * ln + [rng.choice([1 << 31, M32, (1 << 31) | 12345])]
+            final = [rng.randrange(1, 1 << 32) for _ in range(ln)] + [rng.choice([0, 1 << 31])]
+            zero_end = [0] * ln + [rng.choice([0, 1, (1 << 31) - 1])]
+            for tail in (final, zero_end):
+                for op in ("gen_bigint", "random_bits_i"):
+                    reqs.append("C18 %s %d %s" % (op, bits, wwords(tape + tail)))
     for n in range(0, 401 if tier == "thorough" else 200):
         reqs.append("C15 gen_biguint %d %d" % (n, rng.randrange(1 << 62)))
     return reqs
